@@ -59,10 +59,15 @@ def run(pid, tier, seed, replay=None):
         if g is None:
             continue
         corpus.append((g, strict))
-    for gi in range(max(ngr // 3, 2 * len(gen.FAMILIES))):
-        g = gen.family_grammar(rng, fam=gen.FAMILIES[gi % len(gen.FAMILIES)])
-        if g.well_formed(True):
-            corpus.append((g, True))
+    # every family has its quota (the unit-chain families, whose grammars are often not reduced, a double one); a draw that
+    # is not a reduced grammar is repeated
+    fams = gen.FAMILIES + ['deepchains', 'chains']
+    for gi in range(max(ngr // 3, 2 * len(fams))):
+        for _ in range(5):
+            g = gen.family_grammar(rng, fam=fams[gi % len(fams)])
+            if g.well_formed(True):
+                corpus.append((g, True))
+                break
     nested = []
     for _ in range(25 if quick else 250):
         # nested constructs, each with its own `error' alternative (several places expecting error on the path to the error)
